@@ -560,6 +560,23 @@ fn entry_inputs() -> Vec<Input> {
     v.into_iter().map(|(d, t)| { let mut i = inp("entry", d.to_string(), t.into_bytes()); i.force_cli = true; i }).collect()
 }
 
+/// long single lines: miette's graphical report handler pads to the column of a label
+fn longline_inputs() -> Vec<Input> {
+    let mut v = Vec::new();
+    for (what, pre, post) in [("parse-error", "def main(): i64 { ", ")"), ("type-error", "def main(): i64 { ", "x }"), ("no-error", "def main(): i64 { ", "1 }")] {
+        for col in [1000usize, 65_000, 65_517, 65_518, 70_000, 200_000] {
+            let mut i = inp("longline", format!("{what} after {col} blanks"), format!("{pre}{}{post}\n", " ".repeat(col)).into_bytes());
+            i.force_cli = true;
+            v.push(i);
+        }
+    }
+    // the same columns reached by a comment-free long expression, a long identifier and a wide span that starts early
+    let mut i = inp("longline", "type-error after a 70000 character identifier".into(), format!("def main(): i64 {{ x{} }}\n", "a".repeat(70_000)).into_bytes()); i.force_cli = true; v.push(i);
+    let mut i = inp("longline", "wide span starting early".into(), format!("def main(): i64 {{ f({}1) }}\n", " ".repeat(70_000)).into_bytes()); i.force_cli = true; v.push(i);
+    let mut i = inp("longline", "error on the second of two long lines".into(), format!("def main(): i64 {{ {}\n{}) }}\n", " ".repeat(70_000), " ".repeat(70_000)).into_bytes()); i.force_cli = true; v.push(i);
+    v
+}
+
 /// nesting and length families; `d` is the depth / length
 pub fn deep_family(name: &str, d: usize) -> Option<String> {
     let rep = |s: &str, n: usize| s.repeat(n);
@@ -767,6 +784,8 @@ pub fn cmd_robust(seed: u64, n: usize, out: &mut dyn Write, args: &[String]) {
     if n > 0 { inputs.extend(literal_inputs()); }
     // (f)
     if n > 0 { inputs.extend(entry_inputs()); }
+    // long lines (through the binary: the report renderer)
+    if n > 0 { inputs.extend(longline_inputs()); }
     // (g)
     let mut g_left = n * 15 / 100;
     for f in pipe::collect_sc(&[format!("{repo}/testsuite/fail_check")]) { if let Ok(t) = std::fs::read_to_string(&f) { if n > 0 { inputs.push(inp("illtyped", format!("file {}", f.file_name().unwrap().to_string_lossy()), t.into_bytes())); } } }
